@@ -3,7 +3,7 @@ import gens
 import vlib
 
 ID = "C03"
-LEAN_MODULES = ["LexVerif.Props.C03", "LexVerif.Props.C03Tie", "LexVerif.Props.TablesWrite", "LexVerif.Props.Literals.WriteIntegerAlgorithm", "LexVerif.Props.Literals.WriteIntegerCompact", "LexVerif.Props.Literals.WriteIntegerDecimal", "LexVerif.Props.Literals.WriteIntegerDigitCount", "LexVerif.Props.Literals.WriteIntegerJeaiii", "LexVerif.Props.Literals.WriteIntegerRadix", "LexVerif.Props.Literals.WriteIntegerWrite", "LexVerif.Props.Literals.WriteIntegerApi", "LexVerif.Props.Literals.UtilDiv128", "LexVerif.Props.Literals.UtilMul", "LexVerif.Props.Literals.UtilStep", "LexVerif.Props.Literals.UtilDigit", "LexVerif.Props.Literals.UtilConstants"]
+LEAN_MODULES = ["LexVerif.Props.Literals.WriteIntegerOptions", "LexVerif.Props.C03", "LexVerif.Props.C03Tie", "LexVerif.Props.TablesWrite", "LexVerif.Props.Literals.WriteIntegerAlgorithm", "LexVerif.Props.Literals.WriteIntegerCompact", "LexVerif.Props.Literals.WriteIntegerDecimal", "LexVerif.Props.Literals.WriteIntegerDigitCount", "LexVerif.Props.Literals.WriteIntegerJeaiii", "LexVerif.Props.Literals.WriteIntegerRadix", "LexVerif.Props.Literals.WriteIntegerWrite", "LexVerif.Props.Literals.WriteIntegerApi", "LexVerif.Props.Literals.UtilDiv128", "LexVerif.Props.Literals.UtilMul", "LexVerif.Props.Literals.UtilStep", "LexVerif.Props.Literals.UtilDigit", "LexVerif.Props.Literals.UtilConstants"]
 GEN = ["write_tables", "literals"]
 TRUSTED = [
     "Lean 4.33.0 kernel; axioms of each theorem listed under coverage.theorems",
